@@ -2369,6 +2369,9 @@ def oracle(ctx, deep):
     import logging
     fails = []
     rng = ctx.rng
+    if not hasattr(ctx, 'uapi'):
+        # the source translation stopped early (fail closed): the kernel-side reference does not depend on it
+        ctx.uapi = translate_uapi(ctx)
     ke = KEnc(ctx)
     n = 4000 if deep else 600
     for i in range(n):
